@@ -159,6 +159,34 @@ func judgeAll(c *core.Ctx, cfg string, header []record, recs []record, chunk, pa
 
 var dumpSeq int32
 
+// slots bounds the number of TLC worker threads running at any time (budget: 8).
+type slotPool struct {
+	mu sync.Mutex
+	ch chan struct{}
+}
+
+func newSlots(n int) *slotPool {
+	p := &slotPool{ch: make(chan struct{}, n)}
+	for i := 0; i < n; i++ {
+		p.ch <- struct{}{}
+	}
+	return p
+}
+func (p *slotPool) acquire(n int) {
+	p.mu.Lock() // one multi-slot acquirer at a time: no partial-hold deadlock
+	for i := 0; i < n; i++ {
+		<-p.ch
+	}
+	p.mu.Unlock()
+}
+func (p *slotPool) release(n int) {
+	for i := 0; i < n; i++ {
+		p.ch <- struct{}{}
+	}
+}
+
+var slots = newSlots(8)
+
 func judgeAllN(c *core.Ctx, cfg string, header []record, recs []record, chunk, par, maxFail int) error {
 	if len(recs) == 0 {
 		return nil
@@ -172,16 +200,16 @@ func judgeAllN(c *core.Ctx, cfg string, header []record, recs []record, chunk, p
 		}
 		jobs = append(jobs, job{lo, hi})
 	}
-	sem := make(chan struct{}, par)
+	_ = par
 	var wg sync.WaitGroup
 	var mu sync.Mutex
 	var firstErr error
 	for _, j := range jobs {
 		wg.Add(1)
-		sem <- struct{}{}
 		go func(j job) {
 			defer wg.Done()
-			defer func() { <-sem }()
+			slots.acquire(1)
+			defer slots.release(1)
 			var list []any
 			for _, h := range header {
 				list = append(list, h.m)
@@ -222,18 +250,21 @@ func run(c *core.Ctx) error {
 
 	// 1. the model decides (concurrently with the Go side)
 	type mc struct{ cfg string; workers int }
-	models := []mc{{"NumericMC_split_b2l4.cfg", 1}, {"NumericMC_split_b4l3.cfg", 2}, {"NumericMC_pair_w6.cfg", 2}, {"NumericMC_pair_w7.cfg", 3}}
+	models := []mc{{"NumericMC_pair_w7.cfg", 2}, {"NumericMC_split_b4l3.cfg", 2}, {"NumericMC_pair_w6.cfg", 1}, {"NumericMC_split_b2l4.cfg", 1}}
 	if c.Thorough() {
 		models = append(models, mc{"NumericMC_split_b4l4.cfg", 4}, mc{"NumericMC_split_b16l2.cfg", 4}, mc{"NumericMC_pair_w8.cfg", 4})
 	}
+	if os.Getenv("VERIF_C07_DEV_NOMODELS") != "" { // development aid for mutant runs; makes the run inconclusive
+		models = nil
+		c.Inconclusive("development run without the model checks")
+	}
 	var mwg sync.WaitGroup
-	msem := make(chan struct{}, 4)
 	for _, m := range models {
 		mwg.Add(1)
 		go func(m mc) {
 			defer mwg.Done()
-			msem <- struct{}{}
-			defer func() { <-msem }()
+			slots.acquire(m.workers)
+			defer slots.release(m.workers)
 			c.ModelCheck("NumericMC", m.cfg, core.Workers(m.workers), core.Timeout(25*time.Minute), core.Heap(3000))
 		}(m)
 	}
@@ -336,9 +367,7 @@ func run(c *core.Ctx) error {
 			}
 		}()
 	}
-	mwg.Wait()
-	judge("JudgeNumeric.cfg", nil, splits, c.Pick(750, 2500), par)
-	jwg.Wait()
+	judge("JudgeNumeric.cfg", nil, splits, c.Pick(600, 2500), par)
 	judge("JudgeNumeric.cfg", nil, append(append([]record{}, fl...), pf...), c.Pick(800, 4000), 2)
 	judge("JudgeNumeric.cfg", e2e.header, append(append([]record{}, e2e.queries...), e2e.sorts...), c.Pick(400, 1500), 3)
 	// an invariant with an open known finding is judged in a run of its own (DESIGN 3.4)
@@ -353,11 +382,13 @@ func run(c *core.Ctx) error {
 			jmu.Unlock()
 		}
 	}()
+	berr := checkBlowups(c, e2e)
 	jwg.Wait()
+	mwg.Wait()
 	if jerr != nil {
 		return jerr
 	}
-	return checkBlowups(c, e2e)
+	return berr
 }
 
 // checkBlowups handles the queries whose term-range walk is hopelessly long
@@ -372,23 +403,51 @@ func checkBlowups(c *core.Ctx, e2e *e2eRecords) error {
 	if len(cases) > limit {
 		cases = cases[len(cases)-limit:]
 	}
-	for _, bc := range cases {
+	var wg sync.WaitGroup
+	errs := make([]error, len(cases))
+	for i, bc := range cases {
+		wg.Add(1)
+		go func(i int, bc blowupCase) {
+			defer wg.Done()
+			errs[i] = checkBlowup(c, bc)
+		}(i, bc)
+	}
+	wg.Wait()
+	for _, e := range errs {
+		if e != nil {
+			return e
+		}
+	}
+	return nil
+}
+
+func checkBlowup(c *core.Ctx, bc blowupCase) error {
+	{
 		rec, err := splitRecord(bc.mn, bc.mx)
 		if err != nil {
 			return err
 		}
 		// (a leading corpus record keeps the judged record off the initial state)
-		bad, err := c.JudgeRecords("JudgeNumeric", "JudgeNumeric_enum.cfg", []any{bc.cs.Corpus.record().m, rec.m}, 2)
+		slots.acquire(1)
+		tf, err := c.ValidateTrace("JudgeNumeric", "JudgeNumeric_enum.cfg", []any{bc.cs.Corpus.record().m, rec.m})
+		slots.release(1)
 		c.Traces(1)
 		if err != nil {
 			return err
+		}
+		bad := ""
+		if tf != nil {
+			if tf.Line != 2 || tf.Invariant == "" {
+				return fmt.Errorf("judge JudgeNumeric_enum.cfg: unexpected rejection %+v", *tf)
+			}
+			bad = tf.Invariant
 		}
 		res, err := queryInChild(c, bc.cs, 12*time.Second)
 		c.Eval(1)
 		if err != nil {
 			return err
 		}
-		c.Logf("query with a %s-step term walk: judge=%v answered=%v after %.1fs", bc.walk, bad, res.answered, res.waited.Seconds())
+		c.Logf("query with a %s-step term walk: judge=%q answered=%v after %.1fs", bc.walk, bad, res.answered, res.waited.Seconds())
 		switch {
 		case res.answered && res.errText != "":
 			c.Violation("c07/query/"+bc.cs.Corpus.Typ+"/error", res.errText, map[string]any{"case": bc.cs})
@@ -398,11 +457,11 @@ func checkBlowups(c *core.Ctx, e2e *e2eRecords) error {
 			if err := judgeAll(c, "JudgeNumeric.cfg", []record{bc.cs.Corpus.record()}, []record{r}, 10, 1); err != nil {
 				return err
 			}
-		case len(bad) > 0:
+		case bad != "":
 			q := bc.cs.Query
 			c.Violation("c07/range-enumeration-blowup",
 				fmt.Sprintf("%s range query on %s (min bits %#x, max bits %#x, flags %d/%d; integer bounds [%d,%d]) gives no answer within 12s: termRange.Enumerate has to walk %s byte strings (judge: %v)",
-					bc.cs.Corpus.Typ, q.Eng, q.Min, q.Max, q.IncMin, q.IncMax, bc.mn, bc.mx, bc.walk, bad[1]),
+					bc.cs.Corpus.Typ, q.Eng, q.Min, q.Max, q.IncMin, q.IncMax, bc.mn, bc.mx, bc.walk, bad),
 				map[string]any{"case": bc.cs, "split_record": rec.m})
 		default:
 			c.Inconclusive(fmt.Sprintf("query %v did not answer although the judge finds its term walk bounded", core.Canon(bc.cs.Query)))
